@@ -21,6 +21,9 @@ def history(tname, meta, structs, rng, length):
     fields = [f for f, t in structs[tname]]
     dom = gen.DOM.get(tname, {})
     steps = []
+    cur = dict(zip(fields, selfv)) if isinstance(selfv, (list, tuple)) and len(selfv) == len(fields) else {}
+    # some histories move a parameter only by tiny amounts / between tiny magnitudes ("did it change?" guards on setters)
+    tiny_mode = rng.random() < 0.2
     for _ in range(length):
         r = rng.random()
         if r < 0.35 and meta['setters']:
@@ -31,6 +34,14 @@ def history(tname, meta, structs, rng, length):
                 d = dom.get(fld) if isinstance(dom, dict) else None
                 if d in ('>a',):
                     d = 'real'
+                c = cur.get(fld)
+                if tiny_mode and t == 'real' and len(ptys) == 1 and d in (None, 'pos', 'real') and rng.random() < 0.7:
+                    if isinstance(c, float) and c == c and abs(c) < 1e300 and rng.random() < 0.4:
+                        vals.append(c * (1.0 + rng.choice([1, 2, 3, -1, -2]) * 2.220446049250313e-16) if c != 0.0 else 5e-324)
+                    else:
+                        vals.append(gen.pos(rng) * rng.choice([1e-16, 1e-17, 1e-18, 1e-20]))
+                    cur[fld] = vals[-1]
+                    continue
                 if d is not None and t == 'real':
                     vals.append(gen.field_value(d, t, rng, [0.0]))
                 elif d is not None and t in ('nat', 'int'):
@@ -55,6 +66,34 @@ def history(tname, meta, structs, rng, length):
     return f'hist.{tname} - {enc(selfv)} {len(steps)} ' + ' '.join(steps), steps
 
 
+def mixture_history(rng, length):
+    """history of a Mixture<Gaussian> for the hand-written runner hist.MixtureGaussian (harness/src/manual.rs)"""
+    def params(k):
+        w = [rng.random() + 0.05 for _ in range(k)]
+        t = sum(w)
+        return [x / t for x in w], [rng.uniform(-6, 6) for _ in range(k)], [gen.pos(rng) for _ in range(k)]
+    w0, mu0, sg0 = params(rng.choice([1, 2, 3, 5]))
+    k = len(w0)
+    steps = []
+    for _ in range(length):
+        r = rng.random()
+        if r < 0.4:
+            steps.append('q ' + enc(rng.uniform(-8, 8)))
+        elif r < 0.55:
+            steps.append('lw')
+        elif r < 0.7:
+            steps.append('w ' + enc(params(k)[0]))
+        elif r < 0.85:
+            w, mu, sg = params(rng.choice([1, 2, 3, 4, 6]))
+            k = len(w)
+            steps.append('cw ' + enc(w) + ' ' + enc(mu) + ' ' + enc(sg))
+        elif r < 0.93:
+            steps.append('clone')
+        else:
+            steps.append('eq')
+    return f'hist.MixtureGaussian - {enc(w0)} {enc(mu0)} {enc(sg0)} {len(steps)} ' + ' '.join(steps), steps
+
+
 def search_site(man, site, seed):
     """a fact theorem about type `site` broke: run many histories on that type only and return the stale ones"""
     out = extra_run(man, 'thorough', seed, only=site, nper=6000)
@@ -73,6 +112,11 @@ def extra_run(man, tier, seed, only=None, nper=None):
             line, steps = history(tname, m, structs, rng, length)
             lines.append(line)
             meta.append((tname, steps))
+    if only in (None, 'Mixture'):
+        for i in range(nper):
+            line, steps = mixture_history(rng, rng.choice([3, 4, 6, 8, 12]))
+            lines.append(line)
+            meta.append(('Mixture', steps))
     impl, _ = run_pair(lines, want_model=False)
     failures = []
     obligations = []
